@@ -160,7 +160,7 @@ def report(prop, mod, outcomes, a, seed, t_start, partial=False):
     cov = {
         "obligations": n_ded, "discharged": n_dis,
         "checker_cmd": "./check %s --tier %s" % (prop, a.tier),
-        "trusted_base": list(getattr(mod, "TRUSTED_BASE", [])),
+        "trusted_base": list(getattr(mod, "TRUSTED_BASE", [])) + ["pyvc: the encoding of the Python subset into SMT (audited on every run by running the native oracle of each contract against the real code)", "z3 5.1 (API) and cvc5 1.0.3 (CLI) as back ends"],
         "explanation": getattr(mod, "EXPLANATION", ""),
         "discharged_by_backend": by_backend, "solver_time_s": round(solver_s, 3),
         "functions_under_contract": functions,
@@ -174,6 +174,8 @@ def report(prop, mod, outcomes, a, seed, t_start, partial=False):
     }
     if n_bounded_cases:
         cov["evaluations"] = n_bounded_cases
+    for fid in sorted(seen_k):
+        assumptions.append("known finding %s (recorded, not repaired): %s" % (fid, findings.get(fid).get("what", "")))
     ev = {"property_id": prop, "tier": a.tier, "seed": seed, "level": level, "coverage": cov,
           "assumptions": assumptions + list(getattr(mod, "ASSUMPTIONS", [])), "wall_s": round(wall, 2), "violations": len(violations)}
     if not partial and not a.no_evidence:
